@@ -69,8 +69,17 @@ func ImportUint(input interface{}, optionalBits int) (*BMNumber, error) {
 		return nil, errors.New("unknown uint type")
 	}
 	if optionalBits > 0 {
-		// TODO: Finish this
+		// The number holds exactly optionalBits bits: the little endian bytes are padded with zeros
+		// (narrow value, wider type) or cut (wide value, narrower type) to the bytes that width needs
 		result.bits = optionalBits
+		bytesNeeded := (optionalBits + 7) / 8
+		for len(result.number) < bytesNeeded {
+			result.number = append(result.number, 0)
+		}
+		result.number = result.number[:bytesNeeded]
+		if rem := optionalBits % 8; rem != 0 {
+			result.number[bytesNeeded-1] &= byte(0xFF >> uint(8-rem))
+		}
 	}
 	return result, nil
 }
